@@ -66,6 +66,28 @@ theorem C12_walk_stops_only_at_global (ops : List Op) (r : Nat) (hr : r < (run o
   obtain ⟨rr, u, _, _, hw, _, hg⟩ := C12_walk_reaches_root ops r hr
   rw [hw]; exact hg
 
+/-- `p` lies on the outward path of `r` (one or more `enclosing()` steps). -/
+inductive Encloses (s : State) : Nat → Nat → Prop
+  | step {r p : Nat} : s.enclosing r = some p → Encloses s p r
+  | more {r p q : Nat} : s.enclosing r = some p → Encloses s q p → Encloses s q r
+
+/-- **No cycle, after any history:** every region on the outward path of `r` was created strictly before `r`;
+    in particular no region encloses itself, however many steps are taken. -/
+theorem C12_no_cycle (ops : List Op) (r q : Nat) (h : Encloses (run ops) q r) : q < r ∧ q ≠ r := by
+  have key : q < r := by
+    induction h with
+    | step h1 => exact C12_enclosing_earlier ops _ _ h1
+    | more h1 _ ih => exact Nat.lt_trans ih (C12_enclosing_earlier ops _ _ h1)
+  exact ⟨key, Nat.ne_of_lt key⟩
+
+/-- One `enclosing()` step stays inside the tree of the same unit and goes up by exactly one level. -/
+theorem C12_enclosing_same_unit_one_level (ops : List Op) (r p : Nat) (rr : RegionRec)
+    (hr : (run ops).tree[r]? = some rr) (h : (run ops).enclosing r = some p) :
+    ∃ pr : RegionRec, (run ops).tree[p]? = some pr ∧ pr.unit = rr.unit ∧ rr.depth = pr.depth + 1 := by
+  unfold State.enclosing at h
+  simp [hr] at h
+  exact ((Inv.run ops).tree.up r rr p hr h).2
+
 /-- A region that is not global has an enclosing region (the C++ `enclosing()` does not throw). -/
 theorem C12_enclosing_total (ops : List Op) (r : Nat) (hr : r < (run ops).tree.size)
     (hg : (run ops).isGlobal r = false) : ∃ p, (run ops).enclosing r = some p := by
@@ -329,6 +351,8 @@ example : (run demo).nodes[7]? = some (.handler 4 3 6 5 6) := by decide +kernel
 example : (run demo).enclosing 6 = some 3 ∧ (run demo).bindings 6 = [5] ∧ (run demo).enclosing 7 = some 6 := by
   decide +kernel
 example : (run demo).walk 8 = (4, 0) ∧ (run demo).walk 1 = (0, 1) := by decide +kernel
+/-- Region 3 lies two steps out of region 7 (7 → 6 → 3): the hypothesis of `C12_no_cycle` is met by a real history. -/
+example : Encloses (run demo) 3 7 := .more (p := 6) (by decide +kernel) (.step (by decide +kernel))
 example : (run demo).nodes[11]? = some (.member .param 8 8 1) ∧ (run demo).levelOf 11 = some 2 := by decide +kernel
 example : (run demo).bindings 9 = [13, 14] ∧ (run demo).bindings 4 = [15] := by decide +kernel
 example : (run demo).owner 8 = some 9 ∧ (run demo).owner 11 = none ∧ (run demo).owner 13 = none := by decide +kernel
